@@ -89,9 +89,13 @@ def main():
     kernels(ck)
     parser_totality(ck)
     import chainlib; chainlib.certificate(ck)
+    import lexlib
+    LX = lexlib.Lex()
+    for nb in ((1, 2, 3) if ck.tier == 'quick' else (1, 2, 3, 4)): lexlib.check_totality(ck, LX, nb)
     ck.assume("the property ranges over byte strings of kilobytes; decided here: (1) totality of layout+emission on the C05 shape set plus undefined/duplicate/keyword-like labels and invalid OPR operands, all immediates symbolic; "
               "(2) totality of Parser::parseDirective on every token sequence (lexer cut to an arbitrary token source, numbers symbolic); (3) arithmetic kernels on their whole argument range (instrLen: offsets < 2^30)",
-              "the character-level lexer and the interaction of lexer state across many tokens are outside this claim; strings longer than the bounds are outside",
+              "(4) the character-level Lexer (real constructor, readChar, readToken, Table::lookup) on EVERY string of up to 3 bytes (4 thorough), all bytes symbolic: token after token until END_OF_FILE, no UB, crash or budget cut; "
+              "std::istream::get(char&)/eof state, the libc classifiers (\"C\" locale, total on -128..255 as glibc's tables are) and strtoul are models. Longer strings and the interaction of lexer state across many tokens are outside",
               "every run must end in 'emitted' or 'threw an exception derived from std::exception' before any output was written; null/out-of-bounds access, unreachable, abort, UB or the step budget are violations",
               "'never loops forever in layout': every explored path reaches the fixed point within the step budget, and the grow-only certificate of C05 (a reference started from an arbitrary encoded length never ends shorter, "
               "for every gap size) is decided again here; a failing certificate is INCONCLUSIVE, a concrete non-terminating program is a violation",
